@@ -29,6 +29,7 @@ BINS = []
 NEEDS_CICADA = True
 ALLOWED_AXIOMS = []
 PINNED = ["C07_prompt_owner", "C07_owner_cases", "C07_bg_never_owner", "C07_groups_fixed", "C07_full", "C07_full_holds",
+          "C07_simulation", "C07_table_is_C06", "C07_wait_exact", "C07_jobs_exact", "C07_lift_nonvacuous",
           "C07_regress_stage_outside_group", "C07_regress_count_waited", "C07_regress_stop_cont_parked",
           "C07_regress_exit_among_stopped", "C07_regress_partial_continue", "C07_nonvacuous"]
 TRUSTED = ["Coq 8.16.1 kernel, extraction to OCaml, ocamlfind ocamlopt",
@@ -811,6 +812,89 @@ class Session:
             ok = ok and self.simple("", "E")
         return ok
 
+    # ---- Ctrl-C stress (K7): Ctrl-C 0..150 ms after Enter; the shell must survive, prompt again and own the terminal
+    def shell_status(self):
+        try:
+            p, st = os.waitpid(self.sh.pid, os.WNOHANG)
+        except ChildProcessError:
+            return "gone"
+        if p == 0:
+            return None
+        if os.WIFSIGNALED(st):
+            return "killed by signal %d" % os.WTERMSIG(st)
+        return "exited with status %d" % os.WEXITSTATUS(st)
+
+    def kill_traced(self):
+        try:
+            for l in open(self.sh.trace).read().split("\n"):
+                if l.startswith("pid="):
+                    pid = int(l.split("\t")[0][4:])
+                    if pid not in self.killed:
+                        self.killed.add(pid)
+                        try:
+                            os.kill(pid, signal.SIGKILL)
+                        except OSError:
+                            pass
+        except OSError:
+            pass
+
+    def ctrlc_stress(self, n):
+        rng = self.rng
+        self.killed = set()
+        self.trials = []
+        for i in range(n):
+            delay = rng.choice([0, 0, 1, 2, 3, 5, 8, 12, 20, 30, 50, 80, 110, 150]) / 1000.0
+            kind = rng.choice(["jc", "jc", "hp", "pipe"])
+            self.serial += 1
+            t = "s%d" % self.serial
+            cmd = {"jc": "jc 0 %s" % t, "hp": "hp @s300 %s" % t, "pipe": "jc 0 %s | jc 0 %sb" % (t, t)}[kind]
+            what = "%r, Ctrl-C %d ms after Enter" % (cmd, int(delay * 1000))
+            self.typed.append(what)
+            start = len(self.sh.buf)
+            os.write(self.sh.fd, cmd.encode() + b"\r")
+            if delay:
+                time.sleep(delay)
+            try:
+                os.write(self.sh.fd, b"\x03")
+            except OSError:
+                pass
+            end = time.time() + 0.5
+            while time.time() < end and PROMPT not in self.sh.buf[start:]:
+                self.sh.pump(0.01)
+            # whatever is left of the job is ended from outside; then a marker line must be answered at a prompt
+            mark = str(200000 + self.serial).encode()
+            dead = None
+            try:
+                os.write(self.sh.fd, b" 200000 + %d\r" % self.serial)
+            except OSError:
+                dead = self.shell_status() or "terminal closed"
+            end = time.time() + 5.0
+            ok = False
+            while dead is None and time.time() < end:
+                self.kill_traced()
+                self.sh.pump(0.02)
+                tail = self.sh.buf[start:]
+                j = tail.find(mark + b"\r\n")
+                if j >= 0 and PROMPT in tail[j:]:
+                    ok = True
+                    break
+                dead = self.shell_status()
+            fails = []
+            if dead:
+                fails.append("K7: the shell itself is gone (%s) after %s" % (dead, what))
+            elif not ok:
+                fails.append("K7: no prompt answering the marker line within 5 s after %s" % what)
+            else:
+                ow = self.sh.owner()
+                if ow != self.sh.pid:
+                    fails.append("O1: prompt shown while the terminal belongs to %s after %s" % (ow, what))
+            self.trials.append({"do": what, "ok": not fails})
+            self.steps.append({"do": what, "model": "m=P o=1 p= t= out= maps=///", "observed": {"ok": not fails}})
+            if fails:
+                self.oracle_fail.append({"step": len(self.steps), "do": what, "fails": fails})
+            if dead:
+                break
+
     # ---- run
     def run(self):
         root = tempfile.mkdtemp(prefix="c07_")
@@ -831,7 +915,9 @@ class Session:
                 return self.result()
             self.model.reset()
             self.st = parse_state("m=P o=1 p= t= out= maps=///")
-            if self.plan["kind"] == "scripted":
+            if self.plan["kind"] == "ctrlc":
+                self.ctrlc_stress(self.plan["n"])
+            elif self.plan["kind"] == "scripted":
                 self.scripted(self.plan["name"])
             else:
                 for _ in range(self.plan["n"]):
@@ -843,7 +929,7 @@ class Session:
             self.infra = "driver exception: " + traceback.format_exc()[-600:]
         finally:
             try:
-                self.sh.close(list(self.m2r.values()))
+                self.sh.close(list(self.m2r.values()) + list(getattr(self, "killed", [])))
             except Exception:
                 pass
             shutil.rmtree(root, ignore_errors=True)
@@ -909,6 +995,9 @@ def run(ctx, res):
         for name in ["count_waited", "stop_cont_parked", "exit_among_stopped", "partial_continue", "fg_multi", "ctrlz_bg_fg",
                      "many_pipes", "many_pipes"]:
             plans.append({"kind": "scripted", "name": name, "seed": ctx.rng.randrange(1 << 30)})
+    ntr = 100 if ctx.thorough else 30
+    for i in range(ntr // 10):
+        plans.append({"kind": "ctrlc", "n": 10, "seed": ctx.rng.randrange(1 << 30)})
     if ctx.replay:
         rp = json.load(open(ctx.replay))
         if rp.get("plan"):
@@ -941,17 +1030,22 @@ def run(ctx, res):
     path = C.write_cases("c07_sessions", ["\t".join(r["acts"]) for r in recheck])
     mouts = C.run_model(ctx.model["C07"], path)
     steps = 0
+    ctrlc = 0
     stray = multi = launches = 0
     accepted = []
     infra = 0
     for r in results:
-        steps += r["nsteps"]
+        if r["plan"]["kind"] == "ctrlc":
+            ctrlc += r["nsteps"]
+        else:
+            steps += r["nsteps"]
         stray += r["stray"]
         multi += r["multi"]
         launches += r["launches"]
         for s in r["states"]:
             f = s.split(" ")
-            res.nontrivial((f[0].split(":")[0] + f[0][-3:], len(f[2].split(",")), f[3].count(";"), f[4][:12]))
+            if r["plan"]["kind"] != "ctrlc":
+                res.nontrivial((f[0].split(":")[0] + f[0][-3:], len(f[2].split(",")), f[3].count(";"), f[4][:12]))
         if r["infra"]:
             infra += 1
             continue
@@ -997,6 +1091,7 @@ def run(ctx, res):
     if infra > max(1, len(results) // 10):
         raise C.Infra("C07: %d of %d sessions could not be driven (pty / trace machinery)" % (infra, len(results)))
     res.count("L2_pty_steps", steps)
+    res.count("L2_ctrlc_after_enter_trials", ctrlc)
     res.extra["c07"] = {"sessions": len(results), "sessions_not_driven": infra, "launches": launches, "multi_stage_launches": multi,
                         "sessions_with_a_stage_outside_its_group": stray, "accepted_as_repaired": accepted[:6]}
     for r in results[:3]:
